@@ -128,6 +128,17 @@ func init() {
 		p.now = Ite(Cmp(OSlt, p.now, target), target, p.now)
 		return nil
 	})
+	// vLiveGoroutines: goroutines started since the harness began that have not finished (after letting all run)
+	vreg("vLiveGoroutines", func(p *Path, th *thread, caller *frame, pos token.Pos, fn *ssa.Function, args []Value) Value {
+		p.yieldAll(th)
+		n := 0
+		for _, t := range p.threads {
+			if t != th && !t.finished {
+				n++
+			}
+		}
+		return BV(64, uint64(n))
+	})
 	vreg("vYield", func(p *Path, th *thread, caller *frame, pos token.Pos, fn *ssa.Function, args []Value) Value {
 		p.yieldAll(th)
 		return nil
